@@ -27,8 +27,20 @@ DEFAULT = {"nthreads": 1, "recursion_limit": 1000, "max_line_length": -1, "max_c
 NAMES = sorted(OPTS)
 
 
+EMPTY = {"dirs": [], "set": [], "list": [], "json": {}, "int": 0, "str": ""}
+
+
+def value_of(o, which):
+    kind, v1, v2 = OPTS[o]
+    if which == "vEmpty":
+        return EMPTY.get(kind)
+    return v1 if which == "v1" else v2
+
+
 def cli_args(o, which):
     kind, v1, v2 = OPTS[o]
+    if which == "vEmpty":
+        return None    # an empty value cannot be distinguished from "not given" on the command line
     v = v1 if which == "v1" else v2
     if kind == "bool":
         return "--%s" % o if which == "v1" else None   # the command line cannot say false
@@ -59,7 +71,7 @@ def expected(o, tag, root):
             return o == "incremental_sync"   # the harness always passes --incremental_sync
         d = DEFAULT[o]
         return d
-    v = v1 if tag == "v1" else v2
+    v = value_of(o, tag)
     if kind in ("dirs", "set", "list"):
         return sorted(v)
     return v
@@ -85,8 +97,9 @@ def check(st):
         cfg = {}
         for o in st["file"]:
             if st["file"][o] != "absent":
-                k_, v1, v2 = OPTS[names[o]]
-                cfg[names[o]] = v1 if st["file"][o] == "v1" else v2
+                if st["file"][o] == "vEmpty" and OPTS[names[o]][0] in ("bool", "int"):
+                    return "skip"   # no empty value exists for flags and integers
+                cfg[names[o]] = value_of(names[o], st["file"][o])
         fpath = os.path.join(root, ".fortls")
         if kind == "ok":
             json.dump(cfg, open(fpath, "w"))
@@ -129,6 +142,23 @@ def check(st):
             if got != exp:
                 how = "file" if (usable and f != "absent") else ("cli" if cl != "absent" else "default")
                 bad.append((tags0 | {"option:" + name, "effective:" + how, "cli:" + cl, "file.value:" + f}, {"option": name, "expected": exp, "observed": got}))
+        # observable effect of incremental_sync: two ranged changes in one notification are both applied
+        if any(names[o] == "incremental_sync" for o in involved) and kind in ("ok", "none") and resp and resp[0]["t"] == "resp":
+            o = [x for x in involved if names[x] == "incremental_sync"][0]
+            f, cl = st["file"][o], st["cli"][o]
+            tag = f if (usable and f != "absent") else (cl if cl != "absent" else "default")
+            eff = expected("incremental_sync", tag, root)
+            caps = resp[0]["result"].get("capabilities", {}).get("textDocumentSync")
+            if eff and caps != 2 or (not eff and caps != 1):
+                bad.append((tags0 | {"option:incremental_sync", "effect:capability"}, {"expected_incremental": eff, "textDocumentSync": caps}))
+            if eff:
+                adapter.did_open(s, c, root, "top.f90")
+                adapter.notify(s, c, "textDocument/didChange", {"textDocument": {"uri": adapter.uri(root, "top.f90")}, "contentChanges": [
+                    {"range": {"start": {"line": 0, "character": 0}, "end": {"line": 0, "character": 0}}, "text": "! one\n"},
+                    {"range": {"start": {"line": 0, "character": 0}, "end": {"line": 0, "character": 0}}, "text": "! two\n"}]})
+                got_lines = list(s.workspace[os.path.join(root, "top.f90")].contents_split[:2])
+                if got_lines != ["! two", "! one"]:
+                    bad.append((tags0 | {"option:incremental_sync", "effect:changesApplied"}, {"expected": ["! two", "! one"], "observed": got_lines}))
         # options nobody mentioned must be at their defaults too (pairs interfere through the loaders)
         for name in ("pp_suffixes", "pp_defs", "incl_suffixes", "hover_language", "nthreads"):
             if name in [names[o] for o in involved] or kind not in ("ok", "none"):
